@@ -402,7 +402,15 @@ def gen_cases(tier, seed):
     plwB = {"first": {"start": "2017-12-01", "end": "2018-01-01", "windows": {"LV": [["00:00", "23:59"]]}},
             "shadowed": {"start": "2018-01-01", "end": "2018-01-02", "windows": {"MV": [["06:00", "18:00"]]}},
             "nokey": {"start": "2018-01-03", "end": "2018-01-03"}}
-    for f in ({"opX": plwA}, {"opX": plwB}, {"opY": plwB, "opX": plwA}):
+    # listed out of chronological order: a short override season first, the long regular season (which starts
+    # earlier) second - "first listed" is about the order of the file, not about the dates
+    plwC = {"override": {"start": "2018-01-01", "end": "2018-01-02",
+                         "windows": {"MV": [["06:00", "18:00"]], "HV": [["01:00", "02:30"]], "LV": [["23:00", "01:00"]]}},
+            "regular": {"start": "2017-06-01", "end": "2018-12-31",
+                        "windows": {"MV": [["00:15", "00:45"], ["20:00", "21:00"]], "HV": [["12:00", "13:00"]],
+                                    "LV": [["09:00", "09:15"]]}},
+            "earliest": {"start": "2017-01-01", "end": "2018-01-01", "windows": {"MV": [["00:00", "23:59"]]}}}
+    for f in ({"opX": plwA}, {"opX": plwB}, {"opY": plwB, "opX": plwA}, {"opX": plwC}, {"opY": plwA, "opX": plwC}):
         for lvl in ("MV", "HV", "LV"):
             for n in (96, 200):
                 yield {"k": "plw", "scenario": "scenario_A.json", "n": n, "level": lvl, "op": "opX", "file": f}
